@@ -25,11 +25,11 @@ CHECKS = {
             'Decides that every crash point lies between effects whose order leaves old-or-new catalogue '
             'consistent, that only the blob backend creates/removes files, that recovery replays only *.wal and '
             'its jobs report failures as values. Not decided: the behaviour of a recovery run.', '5/C09'),
-    'C10': ('static lock analysis over MIR: guard tracking, must-hold sets (LCK-1,3..7), offset-origin dataflow (FLW-16), OPT-1, FLW-7',
+    'C10': ('static lock analysis over MIR: guard tracking, must-hold sets (LCK-1,3..7), offset-origin dataflow (FLW-16), OPT-1, FLW-7, FLW-22, ORD-17, PAN-6',
             'Decides the lock discipline of the snapshot protocol for all interleavings (exclusion is proved, '
             'not sampled). Not decided: that results equal a prefix at value level.', '5/C10'),
     'C11': ('lock-order graph, blocking-under-lock, condvar pairing, pool-job reply rules, error-as-value '
-            'and arithmetic rules over MIR (LCK-8/9/10, CND-1/2, JOB-1, ERV-1/2, FLW-1, FLW-7, OPT-1, CHK-7, ORD-13 limit-zero)',
+            'and arithmetic rules over MIR (LCK-8/9/10, CND-1/2, JOB-1, ERV-1/2/4, FLW-1, FLW-7, FLW-22, OPT-1, CHK-7, ORD-13 limit-zero, PAN-4/5/6)',
             'Decides deadlock-freedom clauses and the no-damage clauses of failing requests. Not decided: '
             'panic-freedom of the whole operator engine, running-time bounds.', '5/C11'),
     'C12': ('panic-source enumeration over MIR with recognised safe idioms + exception table (PAN-2/3), '
@@ -47,40 +47,39 @@ CHECKS.update({
             'Narrow claim: decides necessary structural conditions of the round trip (bound / element type / '
             'tag agreement per branch, identity tags, NULL markers, exact f32 round-trip test, null map never ignored by the builder). The round trip itself quantifies over '
             'runtime values and is NOT decided.', '5/C01'),
-    'C03': ('MIR order rule + syntax-tree semantic tables (ORD-1, TBL-2, TBL-3)',
+    'C03': ('MIR order rule + syntax-tree semantic tables (ORD-1, TBL-2, TBL-3, TBL-17, TBL-19), two-point typestate Unfiltered/Filtered over a flow-sensitive MIR slice (FLW-23), who-may-construct an in-place operator (WHO-5)',
             'Narrow claim: sorted dictionary before index assignment, codec-op property tables one-sidedly '
-            'safe, comparison registry rows mutually consistent. Comparison results, constant translation, '
-            'NULL semantics NOT decided.', '5/C03'),
-    'C02': ('syntax-tree + MIR structure rules on how partial results are put together (ORD-16, TBL-14, FLW-16, ORD-13)',
+            'safe, comparison registry rows mutually consistent, WHERE constants translated by the inverse of the decode op, the filter applied exactly once to everything a partition plan reads, NULL operands of AND/OR handled per connective, no in-place operator on shared predicate buffers. Comparison results and three-valued logic beyond that NOT decided.', '5/C03'),
+    'C02': ('syntax-tree + MIR structure rules on how partial results are put together (ORD-16, TBL-14, FLW-16, ORD-13), totality of the result-type lattice (PAN-5), NULL-marker translation in the unifying casts (NUL-3)',
             'Narrow claim: partial results are combined in partition order (ordered map keyed by range start, '
             'contiguous ranges only, left before right), partial aggregates merge with their own operation, '
             'buffer partitions follow persisted ones without gap/overlap, per-partition sort is stable. '
             'Equality of results across layouts at value level is NOT decided.', '5/C02'),
     'C04': ('syntax-tree table rules over the aggregator pipeline: SQL name -> aggregator -> planner arm '
             '(TBL-15), marker type operations and neutral elements (TBL-16), merge of partial aggregates and '
-            'its plumbing (TBL-14), checked SUM (CHK-8)',
+            'its plumbing (TBL-14), checked SUM (CHK-8), filter-exactly-once typestate (FLW-23), in-place null-map compaction (NUL-4), PAN-5, NUL-3, WHO-5',
             'Narrow claim: every aggregate keeps its kind from the SQL text to the operator, accumulates / '
             'combines / merges across partitions with its own operation, NULL partial results yield the other '
             'side. Group identity and the per-group values are NOT decided.', '5/C04'),
-    'C05': ('interprocedural MIR taint of LIMIT/OFFSET values (FLW-1), who-reads-offset (ORD-2), MIR structure of the multi-key sort and the top-n guard (ORD-13), abstract evaluation of the comparator syntax trees on all orderings of two keys (TBL-13)',
+    'C05': ('interprocedural MIR taint of LIMIT/OFFSET values (FLW-1), who-reads-offset (ORD-2), MIR structure of the multi-key sort and the top-n guard (ORD-13), abstract evaluation of the comparator syntax trees on all orderings of two keys (TBL-13), PAN-5, NUL-3',
             'Narrow claim: no unchecked arithmetic on the limit sentinel / offset and single application of the '
             'offset, stable last-to-first multi-key sort, top-n only for one key and never with n = 0, comparator impls mutually consistent incl. NULL placement for string keys. The order produced by the sort operators and the merge of sorted partial results NOT decided.', '5/C05'),
     'C07': ('sibling-table comparison of the decode routines incl. null-map and input-from-stack clauses (TBL-4/5), MIR coverage rule (FLW-2), OPT-1, LIT-2, NUL-1',
             'Narrow claim: the compaction-only decode routine handles what its siblings handle, compaction '
             'covers all names/parts/types, flush never unwraps an evictable payload, null maps survive decode and the column builder. Value preservation of '
             're-encoding NOT decided.', '5/C07'),
-    'C13': ('MIR order/lock rules + literal agreement (ORD-7, ORD-12, TBL-6, WHO-3, LIT-2, FLW-2)',
+    'C13': ('MIR order/lock rules + literal agreement (ORD-7, ORD-12, TBL-6, WHO-3, LIT-2, FLW-2, FLW-21), PAN-5',
             'Narrow claim: catalogue rows travel in the same segment, ingestion siblings agree, only they '
             'write the name set, catalogue literals agree. Exactly-once listing over histories NOT decided.',
             '5/C13'),
     'C14': ('MIR dominance/dataflow on the blob envelope (FLW-9, WHO-4) + syntax-tree codec table comparison '
-            'cross-checked with the capnp schemas (TBL-7/8/9), PAN-1',
+            'cross-checked with the capnp schemas (TBL-7/8/9), PAN-1, error-as-value on the cold-load path (PAN-6)',
             'Decides that the payload is returned only after length, version, total-length and SHA-256 checks '
             'over exactly the returned bytes, that every file goes through the envelope and that the three '
             'hand-written codecs compose to the identity on variants/members/fields. Structural equality for '
             'all values NOT decided.', '5/C14'),
     'C15': ('MIR dataflow on path construction and key derivation (FLW-10/11), constant folding of the name predicates on the '
-            'forbidden characters (SET-1/2), routing-table siblings (ORD-8)',
+            'forbidden characters (SET-1/2), routing-table siblings (ORD-8), loaded-mark-after-handles ordering over the call graph (ORD-17)',
             'Narrow claim: paths are built only from sanitised parts, predicates exclude separators/NUL and '
             'bound the length, modified names get the digest, columns sorted before grouping. The range lookup '
             'itself NOT decided.', '5/C15'),
